@@ -97,6 +97,7 @@ pub fn run_check(ctx: &Ctx) -> Outcome {
         "C06" => {
             check_e1(ctx, Prop::C06, &mut out, 12000, 250000);
             check_e2(ctx, Prop::C06, &[Kind::Lru], &mut out);
+            check_ctor_caps_for(ctx, &mut out, "C06");
         }
         "C07" => {
             check_e1(ctx, Prop::C07, &mut out, 12000, 250000);
@@ -151,7 +152,7 @@ pub fn replay(prop: &str, engine: &str, case: &Value) -> Result<Option<Violation
             let ctx = Ctx { id: prop.to_string(), tier: Tier::Quick, seed: 1, verif_dir: std::env::var("VERIF_DIR").unwrap_or_else(|_| "/verif".into()), known: Default::default(), workers: 1, scale: 1.0 };
             let mut o = Outcome::default();
             if engine == "ctorcaps" {
-                check_ctor_caps(&ctx, &mut o);
+                check_ctor_caps_for(&ctx, &mut o, if prop == "C06" { "C06" } else { "C01" });
             } else {
                 check_2q_quota_grid(&ctx, &mut o);
             }
